@@ -13,17 +13,24 @@ of one combinator pipeline, or a push loop in a helper makes no difference.
                           missing => Err(MissingBuildpackPath(id)); found => dependency built from that path
   R2 one-to-one           the `dependencies` of the success payload are made from the input's by exactly two passes, each
                           element by element: an iterator pipeline in which only `map` occurs (no
-                          filter/skip/take/rev/dedup/flat_map), or a fresh Vec with exactly one push per iteration of a
-                          `for` loop over the list that reaches success only through iterator exhaustion; pass 1 starts
-                          from the input's list, pass 2 from the (complete) list pass 1 made
+                          filter/skip/take/rev/dedup/flat_map), or a fresh Vec that receives exactly one push on every way
+                          round a `for` loop over the list (one push site or several: `if c { v.push(a); continue } v.push(b)`)
+                          which reaches success only through iterator exhaustion, or a pass that rewrites the returned
+                          descriptor in place (`pass(&mut d)?` with `for x in &mut d.dependencies { .. *x = new .. }`: slots
+                          are only assigned as a whole, at most once per iteration, from values read before; nothing else
+                          of the descriptor is touched; C14_helpers.inplace_sequence); pass 1 starts from the input's
+                          list, pass 2 from the (complete) list pass 1 made
   R3 verbatim arms        non-libcnb dependencies (pass 1) and dependencies with any scheme (pass 2) are returned
                           as a clone of the input; only scheme-less URIs are rewritten (cases of the element mapping)
   R4 struct update        the result descriptor takes `buildpack` and `platform` from the input descriptor (through every
                           intermediate descriptor a pass may build) and its dependencies are the list made by the passes
   R5 absolutise           rewritten only when relative (is_relative == !is_absolute), joined onto the parent of the source
-                          package.toml; normalize_path per-component effects (for loop or fold/for_each closure):
+                          package.toml; normalize_path per-component effects (for loop or fold/for_each closure) on the
+                          path being built (the returned PathBuf, or a Vec<Component> stack collected into it in order, on
+                          which `pop` guarded by `last()` being Normal is PathBuf::pop):
                           CurDir -> nothing, ParentDir -> pop, Normal / RootDir -> push
-  R6 written              the normalised descriptor is what is written to <destination>/package.toml (`?`)
+  R6 written              the normalised descriptor is what is written to <destination>/package.toml (`?`), by the one
+                          write_toml_file call reached from package_composite_buildpack (in it or in a phase helper)
 Deepening round (what the value algebra alone does not see, and the bodies that carry the data):
   R2 list-untouched       no dependency list / descriptor on the construction path is mutably borrowed except to append
                           (dedup / sort / retain / truncate after collect change number or order without an assignment)
@@ -44,7 +51,7 @@ from .lib import iters
 from .lib.effects import Effects, find_loops, guards_of
 from .lib.paths import strip
 from .lib.value import canon, vstr, walk
-from .C14_helpers import Cases, NEG, Normal, POS, adapters, carried, chain_of, fmt_not_plain, loop_total, mentions, mut_borrows, piecewise_updates, settle, shape_sig, shape_vals, unwrapped
+from .C14_helpers import Cases, NEG, Normal, POS, adapters, carried, chain_of, elem_cases, fmt_not_plain, inplace_calls, inplace_sequence, returned_local, loop_total, mentions, mut_borrows, piecewise_updates, settle, shape_sig, shape_vals, unwrapped
 
 PD = 'libcnb_package::package_descriptor::'
 UTIL = 'libcnb_package::util::'
@@ -70,6 +77,13 @@ def atoms_values(cases):
             yield from walk(a)
         for leaf in shape_vals(sh):
             yield from walk(leaf)
+
+
+def strip_one(v):
+    """x of unwrap(x) (assignments recorded on the way peeled), else None"""
+    while isinstance(v, tuple) and v and v[0] == 'updated':
+        v = v[1]
+    return v[1] if isinstance(v, tuple) and v and v[0] == 'unwrap' else None
 
 
 def show(cases):
@@ -106,16 +120,41 @@ def run(ctx, rep):
     npd = prog.fn(NPD)
     rep.analysed(npd)
     N = Normal(prog, sl, keep=(IDF, AP, UTIL + 'normalize_path'))
-    bv = settle(N.payload(npd))   # (field assignments made after the construction of the descriptor count)
+    raw = N.payload(npd)
+    bv = settle(raw)   # (field assignments made after the construction of the descriptor count)
+    if bv[0] == 'param' and bv[1] == npd.path and bv[2] == 0:
+        # the input descriptor itself (`descriptor.clone()`): field by field the input's fields, with what was assigned since
+        def rebase(v):
+            if isinstance(v, tuple) and v and v[0] == 'updated':
+                return ('updated', rebase(v[1]), v[2])
+            if isinstance(v, tuple) and v and v[0] == 'unwrap':
+                return rebase(v[1])
+            return ('agg', DATA + 'PackageDescriptor', None, tuple((k, ('field', bv, k)) for k in ('buildpack', 'dependencies', 'platform')))
+        bv = settle(rebase(raw))
     fl = dict(bv[3]) if bv[0] == 'agg' and (bv[1] or '').endswith('PackageDescriptor') else {}
     chain, source = chain_of(prog, sl, N, npd, fl['dependencies']) if 'dependencies' in fl else ([], ('unknown',))
+    # ... and then by the passes that rewrite the returned descriptor in place (`pass(&mut d)?` before `Ok(d)`): the value
+    # algebra does not see what a callee does through a `&mut`, C14_helpers.inplace_sequence reads it from the callee
+    inplace, accounted = [], set()
+    root = returned_local(npd)
+    if root is not None:
+        ip_calls, ip_why = inplace_calls(prog, npd, root, DEP_LIST_TY)
+        for c, g, k in ip_calls:
+            sq = inplace_sequence(prog, sl, g, k, {(g.path, i): sl.operand(npd, a) for i, a in enumerate(c.args) if i < g.argc}, N)
+            rep.analysed(g)
+            inplace.append(sq)
+            if sq.one_to_one:
+                accounted |= sq.accounted | {(npd.path, c.bb)}
+        if ip_why is not None:
+            from .C14_helpers import Seq
+            inplace.append(Seq('in-place', [], ('unknown',), None, None, why=ip_why))
     for gp in N.entered:
         rep.analysed(prog.fns[gp])
         for g in prog.closures_of(prog.fns[gp]):
             rep.analysed(g)
     for g in prog.closures_of(npd):
         rep.analysed(g)
-    passes = list(reversed(chain))
+    passes = list(reversed(chain)) + inplace
     src = strip(source)
     from_input = src[0] == 'field' and src[2] == 'dependencies' and is_param(src[1], npd, 0)
     src_of = lambda x: strip(x)[0] == 'field' and is_param(strip(x)[1], npd, 0) and strip(x)[2]
@@ -160,6 +199,9 @@ def run(ctx, rep):
             last = name.rsplit('::', 1)[-1]
             if name.startswith('std::vec::Vec::<') and last in APPEND_ONLY:
                 continue
+            if c is not None and (g.path, c.bb) in accounted:
+                # handed to a pass that rewrites it in place slot by slot / iterated mutably by such a pass: examined there
+                continue
             what = '%s in %s' % (last or 'a stored mutable borrow', g.path.split('::', 1)[-1])
             (touched if name.startswith(('std::vec::Vec::<', 'std::slice::<impl [T]>::', 'core::slice::<impl [T]>::', 'alloc::')) else opaque).append(what)
     if opaque and not touched:
@@ -186,16 +228,17 @@ def run(ctx, rep):
         rep.holds('R3', 'elements-untouched', w(npd), 'no dependency or URI is modified in place while the lists are rebuilt')
     same = lambda a, b: canon(strip(a)) == canon(strip(b))
     # ---- R1 / R3 : libcnb: replacement (element mapping of pass 1) -------------------------------------------------
-    # Case analysis of the mapping applied to one element (C14_helpers.Cases): which results are produced under which
-    # decisions, whether the code says `opt.map_or(Ok(dep.clone()), |id| ..)`, `let Some(id) = opt else { return Ok(dep.clone()) }`
-    # or `match`, in a function of its own or in the closure handed to `map`.
+    # Case analysis of the mapping applied to one element (C14_helpers.Cases / elem_cases): which results are produced under
+    # which decisions, whether the code says `opt.map_or(Ok(dep.clone()), |id| ..)`, `let Some(id) = opt else { return Ok(dep.clone()) }`
+    # or `match`, in a function of its own, in the closure handed to `map`, in the body of a push loop (push sites + early
+    # returns) or in the body of a loop that assigns the slots in place (assignments + "nothing assigned" + early returns).
     s1 = seqs[PASSES[0]]
     elem = s1.elem if s1 is not None and s1.elem is not None else ('unknown', 'element')
     is_elem = lambda x: same(x, elem)
     cs = []
     if s1 is not None and (s1.closure is not None or s1.mapped is not None):
         C1 = Cases(prog, sl, npd, stop=(IDF,))
-        cs = C1.call_cases(s1.closure, [elem]) if s1.closure is not None else C1.value_cases(strip(s1.mapped), {})
+        cs = elem_cases(C1, s1)
     idcs = {canon(x) for x in atoms_values(cs) if x[0] == 'call' and x[1] == IDF}
     idc = next(iter(idcs)) if len(idcs) == 1 else None
     id_ok = idc is not None and len(idc[2]) == 1 and is_elem(idc[2][0])
@@ -216,15 +259,37 @@ def run(ctx, rep):
             and is_param(x[2][0], npd, 2) and canon(x[2][1]) == idv}
     get = next(iter(gets)) if len(gets) == 1 else None
     missing, found, stray = [], [], []
+
+    def conversion(x):
+        """the call try_from(<the looked-up path>) whose (propagated) result x is"""
+        t = sl._ok_core(x)
+        ok = t[0] == 'call' and t[1].endswith('::try_from') and 'PackageDescriptorDependency as std::convert::TryFrom<' in t[1] and \
+            len(t[2]) == 1 and canon(t[2][0]) == ('unwrap', get)
+        return t if ok else None
+    payload_of, failed_conv = [], []
     for atoms, sh in libcnb:
         if get is not None and ('is', get, NEG) in atoms:
             missing.append(sh[0] == 'Err' and any(y[0] == 'agg' and y[2] == 'MissingBuildpackPath' and canon(dict(y[3]).get('0')) == idv for leaf in shape_vals(sh) for y in walk(leaf)))
         elif get is not None and ('is', get, POS) in atoms:
-            t = sl._ok_core(sh[1]) if sh[0] == 'val' else ('unknown',)
-            found.append(t[0] == 'call' and t[1].endswith('::try_from') and 'PackageDescriptorDependency as std::convert::TryFrom<' in t[1] and
-                         len(t[2]) == 1 and canon(t[2][0]) == ('unwrap', get))
+            neg = [a[1] for a in atoms if a[0] == 'is' and a[2] == NEG and conversion(a[1]) is not None]
+            leaf = strip_one(sh[1][1]) if sh[0] == 'Ok' and sh[1][0] == 'val' else None
+            if neg:
+                # the conversion failed: its error is what is returned
+                failed_conv.extend(neg)
+                found.append(sh[0] == 'Err' and any(mentions(sh, ('unwrap_err', x)) for x in neg))
+            elif sh[0] == 'val':
+                # the Result of the conversion, propagated as it is
+                found.append(conversion(sh[1]) is not None)
+            elif leaf is not None and conversion(leaf) is not None:
+                # the success payload of the conversion (its failure is another case: required below)
+                found.append(('is', canon(conversion(leaf)), POS) in atoms)
+                payload_of.append(canon(conversion(leaf)))
+            else:
+                found.append(False)
         else:
             stray.append(sh)
+    if any(x not in failed_conv for x in payload_of):
+        found.append(False)
     good_lookup = id_ok and bool(missing) and bool(found) and all(missing) and all(found) and not stray
     rep.check(good_lookup, 'R1', 'lookup-or-error', w(npd), 'id looked up in the map; missing => Err(MissingBuildpackPath(id)) propagated; found => dependency from that path',
               'libcnb: replacement is not map.get(id) -> MissingBuildpackPath(id) on absence -> try_from(path): ' + show(libcnb or cs))
@@ -272,8 +337,7 @@ def run(ctx, rep):
     abs_args = []   # (path argument, base argument) of every absolutize_path call of the element mapping (R3 exact-args)
     if seq is not None and seq.mapped is not None:
         C2 = Cases(prog, sl, npd, stop=(AP,))
-        ecs = C2.call_cases(seq.closure, [seq.elem]) if seq.closure is not None else C2.value_cases(strip(seq.mapped), {})
-        for atoms, sh in ecs:
+        for atoms, sh in elem_cases(C2, seq):
             sc = [a for a in atoms if a[0] == 'is' and a[2] in (POS, NEG) and a[1][0] == 'call' and a[1][1].endswith('::scheme')]
             arm = {POS: 'Some', NEG: 'None'}[sc[-1][2]] if sc and len({a[2] for a in sc}) == 1 else '?'
             subj_ok = bool(sc) and all(len(a[1][2]) == 1 and strip(a[1][2][0])[0] == 'field' and strip(a[1][2][0])[2] == 'uri' and
@@ -337,32 +401,97 @@ def run(ctx, rep):
     # by a closure handed to fold / for_each (effects expansion enters both and reports the guards at every level)
     npf = prog.fn(UTIL + 'normalize_path')
     rep.analysed(npf)
-    E = Effects(prog, sl, vocab={'std::path::PathBuf::push': ('PATH_PUSH', 0), 'std::path::PathBuf::pop': ('PATH_POP', 0)})
+    # The path being built is the PathBuf the function returns, or a stack of components (Vec<Component>) that is turned into
+    # the returned PathBuf element by element, in order (`stack.into_iter().collect()`: FromIterator for PathBuf is one
+    # PathBuf::push per element).  On the stack, `push(component)` is PathBuf::push(component); `pop()` is PathBuf::pop()
+    # exactly when the top of the stack is a Normal component (PathBuf::pop does nothing on "", "/" or a bare prefix, and
+    # the arms below allow nothing but Prefix / RootDir / Normal components to be pushed), so a stack pop must be guarded by
+    # `stack.last()` being Some(Normal): that guard is the definition of PathBuf::pop, not an extra condition.
+    VEC_PUSH, VEC_POP = 'std::vec::Vec::<T, A>::push', 'std::vec::Vec::<T, A>::pop'
+    E = Effects(prog, sl, vocab={'std::path::PathBuf::push': ('PATH_PUSH', 0), 'std::path::PathBuf::pop': ('PATH_POP', 0),
+                                 VEC_PUSH: ('PATH_PUSH', 0), VEC_POP: ('PATH_POP', 0)})
+    stack_site = None
+    rnames, rsrc = adapters(sl.local(npf, 0))
+    rsrc = unwrapped(rsrc)
+    if rnames and rnames[0] == iters.IT + 'collect' and set(rnames) <= {iters.IT + 'collect', 'std::iter::IntoIterator::into_iter', 'core::slice::<impl [T]>::iter',
+                                                                       iters.IT + 'copied', iters.IT + 'cloned'} \
+            and rsrc[0] == 'call' and rsrc[1].startswith('std::vec::Vec::<') and rsrc[1].endswith(('::new', '::with_capacity')) and len(rsrc) > 3 and rsrc[3]:
+        mk = prog.fns[rsrc[3][0]].call_at(rsrc[3][1]) if rsrc[3][0] in prog.fns else None
+        if mk is not None and re.match(r"^std::vec::Vec<std::path::Component<'\w+>>$", mk.dty or ''):
+            stack_site = tuple(rsrc[3])
+    on_stack = lambda v: stack_site is not None and unwrapped(v)[0] == 'call' and len(unwrapped(v)) > 3 and unwrapped(v)[3] is not None and tuple(unwrapped(v)[3]) == stack_site
+
+    def path_effects():
+        """pushes / pops on the path being built: (effect, on the component stack?)"""
+        for e in E.expand(npf, 'may'):
+            if e.kind not in ('PATH_PUSH', 'PATH_POP'):
+                continue
+            if (e.call.decl or e.call.name) in (VEC_PUSH, VEC_POP):
+                if e.path is not None and on_stack(e.path):
+                    yield e, True
+                continue
+            yield e, False
+
+    def top_cond(cd):
+        """a decision on the top of the component stack: `stack.last()` is Some / is a component of some kind"""
+        sv = cd.subject if cd.subject is not None else cd.value
+        if cd.kind != 'variant' or sv is None:
+            return False
+        x = unwrapped(sv)
+        if x[0] == 'call' and x[1].endswith(('::last', '::last_mut')) and x[1].startswith(('core::slice::', 'std::slice::')) and len(x[2]) == 1:
+            y = carried(sl, x[2][0])
+            return on_stack(y)
+        return False
+
+    def pop_is_pathbuf_pop(e):
+        """the stack pop happens exactly when PathBuf::pop would remove something: top of the stack is Some(Normal)"""
+        tops = [cd for cd, views, subj in guards_of(E, e) if top_cond(cd)]
+        return any(cd.enum == 'std::option::Option' and cd.outcome == frozenset({'Some'}) for cd in tops) and \
+            any(cd.enum == 'std::path::Component' and 'Normal' in cd.outcome and cd.outcome <= {'Normal', 'CurDir', 'ParentDir'} for cd in tops)
     comp = {}
-    for e in E.expand(npf, 'may'):
-        if e.kind not in ('PATH_PUSH', 'PATH_POP'):
-            continue
+    bare_pops = []
+    for e, stk in path_effects():
         rep.analysed(e.call.fn)
-        cds = [cd for cd, views, subj in guards_of(E, e) if cd.kind == 'variant' and cd.enum == 'std::path::Component']
+        gs = [cd for cd, views, subj in guards_of(E, e)]
+        cds = [cd for cd in gs if cd.kind == 'variant' and cd.enum == 'std::path::Component' and not top_cond(cd)]
         per_component = e.forall is not None or e.call.fn.in_loop(e.call.bb)
-        if cds and len(cds[-1].outcome) == 1 and per_component:
-            comp.setdefault(next(iter(cds[-1].outcome)), []).append(e.call.name.split('::')[-1])
+        # (`RootDir | Normal(..) => push` is one arm for two kinds)
+        if cds and cds[-1].outcome and per_component:
+            for kind in sorted(cds[-1].outcome):
+                comp.setdefault(kind, []).append(e.call.name.split('::')[-1])
+        if stk and e.kind == 'PATH_POP' and not pop_is_pathbuf_pop(e):
+            bare_pops.append(e)
+    if any(not [cd for cd, views, subj in guards_of(E, e) if not (cd.kind == 'variant' and cd.enum == 'std::path::Component' and not top_cond(cd)) and
+                not (cd.kind == 'variant' and cd.enum == 'std::option::Option' and cd.outcome == frozenset({'Some'}))] for e in bare_pops):
+        # nothing but the kind of the current component decides the pop: it also removes the root directory / the prefix
+        comp.setdefault('ParentDir', []).append('pop of the root / prefix')
     want = {'RootDir': ['push'], 'ParentDir': ['pop'], 'Normal': ['push']}
-    rep.check(comp == want, 'R5', 'normalize_path/arms', w(npf), 'RootDir/Normal => push, ParentDir => pop, CurDir => nothing', 'normalize_path component arms: %s' % comp)
+    # (a Prefix component can only come first: pushing it inside the loop is what taking it off the front beforehand does)
+    arms_ok = {k: v for k, v in comp.items() if k != 'Prefix'} == want and set(comp.get('Prefix', ['push'])) == {'push'}
+    rep.check(arms_ok, 'R5', 'normalize_path/arms', w(npf), 'RootDir/Normal => push, ParentDir => pop, CurDir => nothing', 'normalize_path component arms: %s' % comp)
     # ... decided by the kind of the component alone: a push / pop that additionally depends on the state of the result, on
     # the file system (`if !result.is_symlink() { result.pop(); }`) or on anything else is not the lexical rule of the table
     extra = []
-    for e in E.expand(npf, 'may'):
-        if e.kind not in ('PATH_PUSH', 'PATH_POP'):
-            continue
+    for e, stk in path_effects():
+        is_pop = stk and e.kind == 'PATH_POP' and pop_is_pathbuf_pop(e)
         for cd, views, subj in guards_of(E, e):
             sv = cd.subject if cd.subject is not None else cd.value
+            if top_cond(cd):
+                # the top-of-stack test that makes a stack pop the PathBuf::pop of the lexical rule (see above); on a push,
+                # or in any other form, it is a dependence on the state of the result
+                if is_pop and ((cd.enum == 'std::option::Option' and cd.outcome == frozenset({'Some'})) or
+                               (cd.enum == 'std::path::Component' and 'Normal' in cd.outcome and cd.outcome <= {'Normal', 'CurDir', 'ParentDir'})):
+                    continue
+                extra.append('%s also depends on %s' % (e.call.name.split('::')[-1], vstr(sv)[:80]))
+                continue
             if cd.kind == 'variant' and cd.enum == 'std::path::Component':
                 continue
             if cd.kind == 'variant' and cd.enum == 'std::option::Option' and cd.outcome == frozenset({'Some'}) and \
                     unwrapped(sv)[0] == 'call' and unwrapped(sv)[1] in (iters.IT + 'next', 'std::iter::Peekable::<I>::next_if', 'std::iter::Peekable::<I>::peek'):
                 continue
             extra.append('%s also depends on %s' % (e.call.name.split('::')[-1], vstr(sv)[:80]))
+        if stk and e.kind == 'PATH_POP' and not is_pop:
+            extra.append('pop from the component stack is not guarded by its top being a Normal component')
     if extra:
         rep.unproven('R5', 'normalize_path/by-kind-only', w(npf), '; '.join(sorted(set(extra))))
     else:
@@ -374,9 +503,7 @@ def run(ctx, rep):
     TOTAL = (iters.IT + 'fold', iters.IT + 'for_each')
     KEEPS_ALL = {iters.IT + 'peekable', iters.IT + 'by_ref', iters.IT + 'fuse', 'std::iter::IntoIterator::into_iter'}
     visits, bad, unknown = [], [], []
-    for e in E.expand(npf, 'may'):
-        if e.kind not in ('PATH_PUSH', 'PATH_POP'):
-            continue
+    for e, stk in path_effects():
         g = e.call.fn
         loops = [L for L in find_loops(g, sl) if e.call.bb in L.body and e.call.bb != L.header]
         coll = None
@@ -397,7 +524,7 @@ def run(ctx, rep):
         else:
             # outside the visit of the components: the start value (a Windows path prefix taken off the front) is not
             # part of the per-component rule; anything else is not understood
-            pre = [cd for cd, views, subj in guards_of(E, e) if cd.kind == 'variant' and cd.enum == 'std::path::Component']
+            pre = [cd for cd, views, subj in guards_of(E, e) if cd.kind == 'variant' and cd.enum == 'std::path::Component' and not top_cond(cd)]
             if not (pre and all(cd.outcome == frozenset({'Prefix'}) for cd in pre)):
                 unknown.append('%s outside the visit of the components' % e.call.name.split('::')[-1])
             continue
@@ -415,13 +542,25 @@ def run(ctx, rep):
     # ---- R6 ------------------------------------------------------------------------------------------------
     pc = prog.fn('libcnb_package::package::package_composite_buildpack')
     rep.analysed(pc)
-    wr = [c for c in pc.calls if c.name == 'libcnb_common::toml_file::write_toml_file']
+    # the call that writes the descriptor, wherever it is made (in package_composite_buildpack itself or in a private phase
+    # helper), with its arguments in the terms of package_composite_buildpack (effects expansion, write_toml_file as vocabulary)
+    WT = 'libcnb_common::toml_file::write_toml_file'
+    wr = [e for e in Effects(prog, sl, vocab={WT: ('TOMLW', 1)}).expand(pc, 'may') if e.kind == 'TOMLW' and len(e.args or ()) == 2]
     ok = len(wr) == 1
     if ok:
-        dv = sl.operand(pc, wr[0].args[0])
-        pv = strip(sl.operand(pc, wr[0].args[1]))
-        # normal form (value.mk_unwrap): the same whether the code says `read(..).and_then(|d| normalize(d, ..))?` or
-        # `let d = read(..)?; normalize(d, ..)?`
+        # normal form (C14_helpers.Normal: private phase helpers of package.rs inlined, value.mk_unwrap): the same whether
+        # the code says `read(..).and_then(|d| normalize(d, ..))?`, `let d = read(..)?; normalize(d, ..)?` or moves the
+        # read + normalise into a helper of its own
+        N6 = Normal(prog, sl, keep=(NPD, 'libcnb_common::toml_file::read_toml_file', WT))
+        dv = N6.nf(wr[0].args[0])
+        pv = strip(N6.nf(wr[0].args[1]))
+        # (the error of the write is returned, at every level of the call chain)
+        links = [getattr(lk, 'call', lk) for lk in wr[0].chain] + [wr[0].call]
+        for c in links:
+            rep.analysed(c.fn)
+        propagated = all(verdict(result_fates(prog, c.fn, c)) == 'ok' for c in links)
+        for gp in N6.entered:
+            rep.analysed(prog.fns[gp])
         path_ok = pv[0] == 'call' and pv[1] == 'std::path::Path::join' and strip(pv[2][0])[0] == 'param' and strip(pv[2][0])[2] == 1 and strip(pv[2][1]) == ('const', 'package.toml')
         nv = strip(dv)
         ok = False
@@ -432,7 +571,7 @@ def run(ctx, rep):
             rd = a[0][0] == 'call' and a[0][1] == 'libcnb_common::toml_file::read_toml_file' and src_path(strip(a[0][2][0])) and nv[2][0][0] == 'unwrap'
             # (descriptor read from <src>/package.toml, that same path, the id->path map parameter)
             ok = rd and src_path(a[1]) and a[2][0] == 'param' and a[2][1] == pc.path and a[2][2] == 2 \
-                and verdict(result_fates(prog, pc, wr[0])) == 'ok'
+                and propagated
     rep.check(ok, 'R6', 'written', w(pc), 'write_toml_file(normalize(read(<src>/package.toml), that path, id->path map)?, <dest>/package.toml)?',
               'the composite package.toml written is not the normalised source descriptor')
     # ... and it is the ONLY way <destination>/package.toml comes into being, on every success path: a second writer (a
